@@ -3,9 +3,9 @@ package rfc
 import (
 	"encoding/json"
 	"fmt"
-	"os"
 	"math/rand/v2"
 	"net/http"
+	"os"
 	"strings"
 	"time"
 
@@ -151,7 +151,7 @@ func genRespSpec(r *rand.Rand, bias string, resIdx, epoch int) RespSpec {
 	return rs
 }
 
-var oddListValues = []string{"*/*;q", "text/plain;a", "text/html;q=", ";q=1", "a;;b", "gzip;q", ",", ";", "a;q=abc", "a;q=1;q=0", "a; q", "q=", "=", "a;b;c;d;e;f", "*;q=0.5, *", "\"", "a;q=\"1\"", " ", "a,,b", "a;q=0.0001", "a;q=2", "a;q=-1", "x;" , "x;y=", "x ; q = 0.5"}
+var oddListValues = []string{"*/*;q", "text/plain;a", "text/html;q=", ";q=1", "a;;b", "gzip;q", ",", ";", "a;q=abc", "a;q=1;q=0", "a; q", "q=", "=", "a;b;c;d;e;f", "*;q=0.5, *", "\"", "a;q=\"1\"", " ", "a,,b", "a;q=0.0001", "a;q=2", "a;q=-1", "x;", "x;y=", "x ; q = 0.5"}
 
 var fuzzReqCC = []string{"no-cache", "max-age=0", "max-age=5", "max-age=100", "max-stale", "max-stale=5", "min-fresh=3", "only-if-cached", "no-store", "only-if-cached, max-stale", "no-cache, only-if-cached", "stale-if-error=30", "max-age=5, max-stale=10"}
 
@@ -363,9 +363,9 @@ var Verbose = os.Getenv("VERIF_VERBOSE") != ""
 
 // FuzzObs is what one history produced for the monitors.
 type FuzzObs struct {
-	W    *sim.World
-	Infos []*mon.Info
-	Invs []*mon.Invalidation
+	W        *sim.World
+	Infos    []*mon.Info
+	Invs     []*mon.Invalidation
 	Deadlock string
 }
 
